@@ -111,6 +111,7 @@ type Lemma struct {
 	Concl  []Clause
 	Splits []Split
 	Uses   []UseLemma // instances of earlier lemmas assumed in the proof
+	Induct string     // parameter the lemma is proved by induction on (allows instances of itself at smaller values)
 	File   string
 	Line   int
 	Timeout int
@@ -173,7 +174,7 @@ func newContracts() *Contracts {
 		Ghosts: map[string]*GhostVar{}, Externs: map[string]*FuncContract{}, Writers: map[string][]string{}, Scenarios: map[string]*Scenario{}, ImportsByPkg: map[string][]string{}}
 }
 
-var kwRe = regexp.MustCompile(`^(import|define|ghost|func|extern|lemma|axiom|fact|scenario|do|establishes|writers|callers-inline|thorough-only|prefix-only|abstract|at-store|at-return|reads-only|no-writes|writes-only-via|instances|callback-modifies|callback-ensures|callback-requires|views|at-call|allow-extern|props|requires|ensures|modifies|nopanic|exact-conversions|trusted|inline|split|loop|assert|use|hyp|concl|timeout|bounded|opaque)\b`)
+var kwRe = regexp.MustCompile(`^(import|define|ghost|func|extern|lemma|axiom|fact|scenario|do|establishes|writers|callers-inline|thorough-only|prefix-only|abstract|at-store|at-return|reads-only|no-writes|writes-only-via|instances|induct|callback-modifies|callback-ensures|callback-requires|views|at-call|allow-extern|props|requires|ensures|modifies|nopanic|exact-conversions|trusted|inline|split|loop|assert|use|hyp|concl|timeout|bounded|opaque)\b`)
 
 func parseExprSrc(src string) (ast.Expr, error) {
 	// ==> is written as implies(); allow `a ==> b` at top level as sugar, right-assoc
@@ -431,6 +432,11 @@ func (cs *Contracts) LoadContractFile(path string, pkgShort string) error {
 				gi.Rows = append(gi.Rows, row)
 			}
 			cur.Instances = append(cur.Instances, gi)
+		case "induct":
+			if curLemma == nil {
+				return fmt.Errorf("%s:%d: induct PARAM belongs to a lemma", path, r.line)
+			}
+			curLemma.Induct = strings.TrimSpace(r.text)
 		case "no-writes":
 			cur.NoWrites = true
 		case "writes-only-via":
